@@ -8,7 +8,8 @@ CFGA = 'cfg_attr(feature = "schema", '
 CASES = ["lowercase", "UPPERCASE", "PascalCase", "camelCase", "snake_case", "SCREAMING_SNAKE_CASE", "kebab-case", "SCREAMING-KEBAB-CASE"]
 FIELD_NAMES = ["a", "user_name", "x1", "a_b_c", "http_url2", "id", "is_active", "created_at", "n", "first_name_2", "url", "v2_api"]
 VARIANT_NAMES = ["A", "HTTPError", "IoV2", "UserCreated", "Ok", "NotFound", "B2", "XmlHttpRequest"]
-RENAMES = ["user-name", "fullName", "ID", "x", "type", "2fa", "with space", "snake_name", "Kebab-Case-Name", "ünï"]
+# none of these can coincide with a case conversion of a FIELD_NAMES entry (two fields with one wire name are a generator fault)
+RENAMES = ["user-name-r", "fullName", "IDENT", "xr", "type", "2fa", "with space", "snake_name", "Kebab-Case-Name", "ünï"]
 
 
 class G:
@@ -391,7 +392,11 @@ fn at<'v>(v: &'v mut Value, path: &[Value]) -> &'v mut Value {
 
 pub fn d_u32() -> u32 { 7 }
 
-pub fn probes<T: ohkami::serde::de::DeserializeOwned>(n: usize, v: &Value) -> Vec<Value> {
+fn pointer(path: &[Value]) -> String {
+    path.iter().map(|p| match p { Value::String(k) => format!("/{}", k.replace('~', "~0").replace('/', "~1")), other => format!("/{other}") }).collect()
+}
+
+pub fn probes<T: ohkami::serde::de::DeserializeOwned + ohkami::serde::Serialize>(n: usize, v: &Value) -> Vec<Value> {
     let mut out = vec![json!({"instance": n, "path": null, "key": null, "ok_without": serde_json::from_value::<T>(v.clone()).is_ok()})];
     let mut paths = vec![];
     objects(v, &mut vec![], &mut paths);
@@ -410,7 +415,19 @@ pub fn probes<T: ohkami::serde::de::DeserializeOwned>(n: usize, v: &Value) -> Ve
         for k in keys {
             let mut w = v.clone();
             at(&mut w, &p).as_object_mut().unwrap().remove(&k);
-            out.push(json!({"instance": n, "path": p, "key": k, "ok_without": serde_json::from_value::<T>(w).is_ok()}));
+            // reading succeeded - as the same thing? (an untagged enum may read the rest as another variant; that says nothing about k)
+            let (ok, same) = match serde_json::from_value::<T>(w.clone()) {
+                Ok(t) => {
+                    let mut back = serde_json::to_value(&t).unwrap_or(Value::Null);
+                    let same = match back.pointer_mut(&pointer(&p)).and_then(|o| o.as_object_mut()) {
+                        Some(o) => { o.remove(&k); Some(&*o) == at(&mut w, &p).as_object().map(|x| x) }
+                        None => false,
+                    };
+                    (true, same)
+                }
+                Err(_) => (false, true),
+            };
+            out.push(json!({"instance": n, "path": p, "key": k, "ok_without": ok, "read_as_the_same_value": same}));
         }
     }
     out
